@@ -52,10 +52,9 @@ class CSSCharsetRule(cssrule.CSSRule):
         super().__init__(parentRule=parentRule, parentStyleSheet=parentStyleSheet)
         self._atkeyword = '@charset'
 
+        self._encoding = None
         if encoding:
             self.encoding = encoding
-        else:
-            self._encoding = None
 
         self._readonly = readonly
 
